@@ -566,3 +566,6 @@ func verifSymOnly()                   {}
 func verifRevidText(rev int64) []byte { return []byte(fmt.Sprintf(`"%d"`, rev)) }
 
 func verifXattrsBlob(name string) []byte { return verifBytes(name) }
+
+func verifMacroCasJSON(cas uint64) []byte  { b, _ := json.Marshal(casAsString(cas)); return b }
+func verifMacroCrcJSON(body []byte) []byte { b, _ := json.Marshal(encodedCRC32c(body)); return b }
